@@ -282,6 +282,18 @@ fn check_map(rep: &Report, entries: &[(String, Val, Ty)], sample: bool) {
             },
             Err(e) => problems.push(("C15:param-json-print".into(), e.to_string())),
         }
+        // both printed modules in one file (either order): each parser reads its own module and ignores the other,
+        // also when the two maps use the same names
+        for both in [format!("{wt}\n{at}"), format!("{at}\n{wt}")] {
+            match simfony::WitnessValues::parse_from_str(&both) {
+                Ok(b) if b == w => {}
+                other => problems.push(("C15:witness-module-beside-param-module".into(), format!("witness module in {both:?} parses to {:?}", other.map(|_| "a different map").map_err(|e| drive::first_line(&e.to_string()))))),
+            }
+            match simfony::Arguments::parse_from_str(&both) {
+                Ok(b) if b == a => {}
+                other => problems.push(("C15:param-module-beside-witness-module".into(), format!("param module in {both:?} parses to {:?}", other.map(|_| "a different map").map_err(|e| drive::first_line(&e.to_string()))))),
+            }
+        }
         // determinism + sortedness of module printing over insertion orders
         if entries.len() <= 4 {
             for p in permutations(entries.len()) {
